@@ -62,7 +62,7 @@ func init() {
 
 func genC26(seed int64, tier string, emit func(run.Case)) {
 	r := gen.New(seed)
-	n := tierN(tier, 70, 5000)
+	n := tierN(tier, 50, 5000)
 	for i := 0; i < n; i++ {
 		q := r.Sub(i)
 		o := gen.DiagramOpts{MinObjects: 2, MaxObjects: 10, MaxDepth: 3, Latex: -1, Special: .3, Styles: .3, EdgeStyles: .3, Arrowheads: .3,
